@@ -1,11 +1,412 @@
 (* Property C16 — Gibbs sampler state always equals a recomputation from its
-   alignment.  Property theorems only (closed by lemmas of SamplerProofs). *)
-From Coq Require Import List Arith Bool NArith Lia.
+   alignment.  Property theorems only (closed by lemmas of SamplerProofs / SamplerRun).
+
+   Model (SamplerModel.v): Sampler::_new, SamplerBuilder, select_holdout,
+   exclude_sequence, prepare_pssm (background() total), update_holdout,
+   include_sequence, Iterator::next (oops / zoops, inertia, patience), with the RNG
+   replaced by an explicit choice list: initial starts, initial seed set, and per
+   call of next() (hold-out z, outcome of update_holdout, outcome of the zoops
+   information-content comparison).  Every Rust panic site is a [Panic n].
+
+   Vocabulary used by the statements (all defined in the model / lemma files):
+     recompute_motif K W data act starts   count matrix recomputed from the alignment
+     recompute_bg    K W data act starts   background counts: sum over active sequences of
+                                           (symbol counts - window counts)
+     state_holds     the four clauses of C16 about one reported state
+     iteration_holds the clause about Iteration.counts (alignment without z)
+     Holds_C16       state_holds for the state after construction and after every call,
+                     iteration_holds w.r.t. the alignment before and after the call,
+                     Iteration.step = number of the call
+     allowed r       r is Ok, or one of the documented panics 5..9 (empty seed list,
+                     empty data set, background of an empty active set, weight overflow,
+                     step counter overflow), or Err 3/4 (a choice no RNG can produce);
+                     in particular never an index panic, counter overflow or underflow
+     data_ok         symbols < K, every sequence at least as long as the width, the
+                     data set fits the counters (n <= u32::MAX, total length <= usize::MAX) *)
+From Coq Require Import List Arith Bool NArith ZArith Lia.
 From LMBase Require Import Res ListX.
-From LMSampler Require Import SamplerModel.
+From LMSampler Require Import SamplerModel SamplerLemmas SamplerSpec SamplerProofs SamplerRun.
 Import ListNotations.
 
-(* The trace is a function of data, parameters and the choice list. *)
+(* ------------------------------------------------------------------ main theorem *)
+
+(* For every data set meeting the constructor's guards, both modes, all parameters, all
+   initial draws and ALL choice lists (no bound on the number of steps): construction
+   succeeds, and the run either ends in a documented panic / impossible choice, or every
+   reported state equals the recomputation from its alignment (count matrix, background
+   counts and their normalisation, sequence count, window ranges) and every iteration's
+   counts are those of the alignment without its hold-out. *)
+Theorem sampler_inv :
+  forall (freq : N -> N -> Z) K W data wraps m initial inertia patience starts0 seeds0 chs,
+    data_ok K W data ->
+    Forall (fun wr => (W <= wr)%nat) wraps ->
+    starts_in_range W data starts0 = true ->
+    (m = Zoops -> seeds_ok (length data) initial seeds0) ->
+    exists c st0,
+      new_ K W data wraps m initial inertia patience starts0 seeds0 = Ok (c, st0) /\
+      match run c st0 chs with
+      | Ok t => length t = length chs /\
+                Holds_C16 freq K W data (report_of freq st0) (obs_of_trace freq t)
+      | r => allowed r
+      end.
+Proof. exact new_run_holds. Qed.
+
+(* the same at the level of the sampler's fields, for any state satisfying the
+   invariant (established by _new: new_ok) and any choice list *)
+Theorem sampler_state_inv :
+  forall c st chs t,
+    WF c -> seed_ok c -> Inv c st -> run c st chs = Ok t ->
+    Forall (fun x =>
+      let st' := fst x in
+      st_motif st' = recompute_motif (cK c) (cW c) (cData c) (st_active st') (st_starts st') /\
+      st_bg st' = recompute_bg (cK c) (cW c) (cData c) (st_active st') (st_starts st') /\
+      st_count st' = count_true (st_active st') /\
+      starts_in_range (cW c) (cData c) (st_starts st') = true /\
+      st_last st' <= st_step st')%N t.
+Proof.
+  intros c st chs t Hwf Hseed Hinv Hrun.
+  pose proof (run_inv c chs Hwf Hseed st Hinv) as H. rewrite Hrun in H. destruct H as [_ Ht].
+  eapply Forall_impl; [|apply (trace_ok_states c t st Ht)].
+  intros x [[H1 H2 H3 H4 H5] Hl _]. cbv zeta. auto.
+Qed.
+
+(* no arithmetic or index panic, whatever the choices *)
+Theorem sampler_no_underflow :
+  forall c st chs, WF c -> seed_ok c -> Inv c st -> allowed (run c st chs).
+Proof.
+  intros c st chs Hwf Hseed Hinv. pose proof (run_inv c chs Hwf Hseed st Hinv) as H.
+  destruct (run c st chs); auto. exact I.
+Qed.
+
+(* ------------------------------------------------------------------ iteration counts *)
+
+(* the counts yielded with an iteration are the recomputation from the alignment without
+   the hold-out z, with respect to the alignment before the call and to the alignment
+   after it; only z's start and activity change; an active hold-out stays active *)
+Theorem iteration_counts_without_z :
+  forall c st ch st' it,
+    WF c -> Inv c st -> next c st ch = Ok (st', Some it) ->
+    (it_z it < length (cData c))%nat /\
+    it_step it = st_step st /\
+    it_counts it = recompute_motif (cK c) (cW c) (cData c) (upd (it_z it) false (st_active st)) (st_starts st) /\
+    it_counts it = recompute_motif (cK c) (cW c) (cData c) (upd (it_z it) false (st_active st')) (st_starts st') /\
+    it_n it = count_true (upd (it_z it) false (st_active st)) /\
+    (forall i, i <> it_z it ->
+       nth i (st_active st') false = nth i (st_active st) false /\
+       nth i (st_starts st') O = nth i (st_starts st) O) /\
+    (nth (it_z it) (st_active st) false = true -> nth (it_z it) (st_active st') false = true).
+Proof.
+  intros c st ch st' it Hwf Hinv En.
+  destruct (next_inv c st ch st' (Some it) Hwf Hinv En) as [_ Hp]. cbn [next_post] in Hp. tauto.
+Qed.
+
+(* ------------------------------------------------------------------ panics *)
+
+(* the premise "the hold-out leaves an active sequence": with sequences longer than the
+   width, possible choices and no weight overflow, a run never panics *)
+Theorem sampler_no_panic :
+  forall K W data wraps m initial inertia patience starts0 seeds0 chs,
+    data_ok K W data ->
+    Forall (fun s => (W < length s)%nat) data ->
+    Forall (fun wr => (W <= wr)%nat) wraps ->
+    starts_in_range W data starts0 = true ->
+    (m = Zoops -> seeds_ok (length data) initial seeds0) ->
+    exists c st0,
+      new_ K W data wraps m initial inertia patience starts0 seeds0 = Ok (c, st0) /\
+      (choices_ok c st0 chs -> exists t, run c st0 chs = Ok t).
+Proof.
+  intros K W data wraps m initial inertia patience starts0 seeds0 chs Hd Hs Hw Hr Hseeds.
+  destruct (new_ok K W data wraps m initial inertia patience starts0 seeds0 Hd Hw Hr Hseeds)
+    as [c [st0 [E [Hwf [Hinv [Hc _]]]]]].
+  exists c, st0. split; [exact E|]. apply run_progress; auto.
+  unfold strict_len. rewrite Hc. exact Hs.
+Qed.
+
+(* background() (Background::from_counts(..).unwrap()) panics exactly on an empty active set *)
+Theorem background_panics_iff_empty_active_set :
+  forall c st, WF c -> strict_len c -> CInv c st ->
+    (bg_total (st_bg st) = Panic 7 <->
+     forall i, (i < length (cData c))%nat -> nth i (st_active st) false = false).
+Proof. intros c st Hwf Hs Hi. apply (background_panics_iff_no_active c st Hwf Hs Hi). Qed.
+
+(* ------------------------------------------------------------------ the checker behind PROPFAIL *)
+
+(* the extracted boolean checker decides exactly the property predicate *)
+Theorem check_C16_sound :
+  forall freq K W data init os,
+    check_C16 freq K W data init os = true -> Holds_C16 freq K W data init os.
+Proof. intros. apply check_C16_iff. assumption. Qed.
+
+Theorem check_C16_complete :
+  forall freq K W data init os,
+    Holds_C16 freq K W data init os -> check_C16 freq K W data init os = true.
+Proof. intros. apply check_C16_iff. assumption. Qed.
+
+(* sampler_inv in executable form: the checker accepts what the model reports *)
+Theorem model_passes_C16 :
+  forall (freq : N -> N -> Z) K W data wraps m initial inertia patience starts0 seeds0 chs c st0 t,
+    data_ok K W data ->
+    Forall (fun wr => (W <= wr)%nat) wraps ->
+    starts_in_range W data starts0 = true ->
+    (m = Zoops -> seeds_ok (length data) initial seeds0) ->
+    new_ K W data wraps m initial inertia patience starts0 seeds0 = Ok (c, st0) ->
+    run c st0 chs = Ok t ->
+    check_C16 freq K W data (report_of freq st0) (obs_of_trace freq t) = true.
+Proof.
+  intros freq K W data wraps m initial inertia patience starts0 seeds0 chs c st0 t Hd Hw Hr Hs En Er.
+  destruct (new_run_holds freq K W data wraps m initial inertia patience starts0 seeds0 chs Hd Hw Hr Hs)
+    as [c' [st0' [En' H]]].
+  rewrite En in En'. inversion En'; subst c' st0'. rewrite Er in H.
+  apply check_C16_iff. tauto.
+Qed.
+
+(* ------------------------------------------------------------------ reading of the recomputation *)
+
+(* "the normalised symbol counts of those sequences outside their windows": the recomputed
+   background count of k is the number of occurrences of k in the active sequences with
+   their windows cut out *)
+Theorem background_counts_are_outside_windows :
+  forall W data act starts k,
+    spec_bg_cell W data act starts k =
+    sumN (fun i => if nth i act false
+                   then count_sym (firstn (nth i starts O) (nth i data [])
+                                   ++ skipn (nth i starts O + W) (nth i data [])) k
+                   else 0%N) (length data).
+Proof. exact spec_bg_outside. Qed.
+
+(* every row of the maintained count matrix sums to the maintained sequence count
+   (what CountMatrix::new_unchecked(motif, active.count()) relies on) *)
+Theorem count_matrix_rows_sum_to_sequence_count :
+  forall c st j, WF c -> CInv c st -> (j < cW c)%nat ->
+    sumN (fun k => nth k (nth j (st_motif st) []) 0%N) (cK c) = st_count st.
+Proof. intros c st j Hwf Hi Hj. exact (motif_row_sum c st j Hwf Hi Hj). Qed.
+
+(* ------------------------------------------------------------------ modes, bookkeeping *)
+
+(* Oops: every sequence stays active, every call yields an iteration, never converges *)
+Theorem oops_all_active_never_converges :
+  forall c st chs t,
+    WF c -> cMode c = Oops -> Inv c st -> st_conv st = false -> run c st chs = Ok t ->
+    Forall (fun x => st_conv (fst x) = false /\ snd x <> None /\
+                     forall i, (i < length (cData c))%nat -> nth i (st_active (fst x)) false = true) t.
+Proof. intros c st chs t Hwf Hm Hinv Hc Hr. exact (run_oops c chs Hwf Hm st t Hinv Hc Hr). Qed.
+
+(* the same through the public constructors: any sequence of SamplerBuilder setters followed
+   by sample(), and Sampler::new (oops, no seeds) *)
+Theorem sampler_inv_builder :
+  forall (freq : N -> N -> Z) K data wraps ops b starts0 seeds0 chs,
+    builder_run builder_new ops = Ok b ->
+    data_ok K (b_width b) data ->
+    Forall (fun wr => (b_width b <= wr)%nat) wraps ->
+    starts_in_range (b_width b) data starts0 = true ->
+    (b_mode b = Zoops -> seeds_ok (length data) (b_seeds b) seeds0) ->
+    exists c st0,
+      builder_sample K data wraps b starts0 seeds0 = Ok (c, st0) /\
+      cInertia c = match b_inertia b with Some i => i | None => 0%N end /\
+      cPatience c = match b_patience b with Some p => p | None => N.of_nat (length data) end /\
+      match run c st0 chs with
+      | Ok t => length t = length chs /\
+                Holds_C16 freq K (b_width b) data (report_of freq st0) (obs_of_trace freq t)
+      | r => allowed r
+      end.
+Proof.
+  intros freq K data wraps ops b starts0 seeds0 chs _ Hd Hw Hr Hs. unfold builder_sample.
+  destruct (new_ok K (b_width b) data wraps (b_mode b) (b_seeds b)
+              (match b_inertia b with Some i => i | None => 0%N end)
+              (match b_patience b with Some p => p | None => N.of_nat (length data) end)
+              starts0 seeds0 Hd Hw Hr Hs) as [c [st0 [E [_ [_ [Hc _]]]]]].
+  destruct (new_run_holds freq K (b_width b) data wraps (b_mode b) (b_seeds b)
+              (match b_inertia b with Some i => i | None => 0%N end)
+              (match b_patience b with Some p => p | None => N.of_nat (length data) end)
+              starts0 seeds0 chs Hd Hw Hr Hs) as [c' [st0' [E' H]]].
+  rewrite E in E'. inversion E'; subst c' st0'.
+  exists c, st0. split; [exact E|]. rewrite Hc at 1 2. cbn [cInertia cPatience]. auto.
+Qed.
+
+(* seeds(n) fixes the inertia to 50 n only when no inertia was set before (get_or_insert) *)
+Theorem builder_seeds_default_inertia :
+  forall b s b', builder_step b (BSeeds s) = Ok b' ->
+    b_seeds b' = s /\
+    b_inertia b' = match b_inertia b with Some i => Some i | None => Some (s * 50)%N end.
+Proof.
+  intros b s b'. unfold builder_step. destruct (s * 50 <=? usize_max)%N; [|discriminate].
+  intros H. inversion H; subst. cbn. auto.
+Qed.
+
+(* ------------------------------------------------------------------ determinism *)
+
+(* The trace is a function of data, parameters and the choice list, and the trace of the
+   first calls does not depend on later choices.  (That the implementation's choices are
+   a function of the seed is checked on every run: rerun=same.) *)
 Theorem sampler_deterministic :
   forall c st chs1 chs2, chs1 = chs2 -> run c st chs1 = run c st chs2.
 Proof. intros c st chs1 chs2 ->. reflexivity. Qed.
+
+Theorem sampler_trace_prefix :
+  forall c st chs1 chs2 t,
+    run c st (chs1 ++ chs2) = Ok t ->
+    exists t1 t2, t = t1 ++ t2 /\ run c st chs1 = Ok t1 /\ length t1 = length chs1.
+Proof. intros c st chs1 chs2 t. apply run_prefix. Qed.
+
+(* ------------------------------------------------------------------ pins *)
+
+Check sampler_inv :
+  forall (freq : N -> N -> Z) K W data wraps m initial inertia patience starts0 seeds0 chs,
+    data_ok K W data ->
+    Forall (fun wr => (W <= wr)%nat) wraps ->
+    starts_in_range W data starts0 = true ->
+    (m = Zoops -> seeds_ok (length data) initial seeds0) ->
+    exists c st0,
+      new_ K W data wraps m initial inertia patience starts0 seeds0 = Ok (c, st0) /\
+      match run c st0 chs with
+      | Ok t => length t = length chs /\
+                Holds_C16 freq K W data (report_of freq st0) (obs_of_trace freq t)
+      | r => allowed r
+      end.
+
+Check iteration_counts_without_z :
+  forall c st ch st' it,
+    WF c -> Inv c st -> next c st ch = Ok (st', Some it) ->
+    (it_z it < length (cData c))%nat /\
+    it_step it = st_step st /\
+    it_counts it = recompute_motif (cK c) (cW c) (cData c) (upd (it_z it) false (st_active st)) (st_starts st) /\
+    it_counts it = recompute_motif (cK c) (cW c) (cData c) (upd (it_z it) false (st_active st')) (st_starts st') /\
+    it_n it = count_true (upd (it_z it) false (st_active st)) /\
+    (forall i, i <> it_z it ->
+       nth i (st_active st') false = nth i (st_active st) false /\
+       nth i (st_starts st') O = nth i (st_starts st) O) /\
+    (nth (it_z it) (st_active st) false = true -> nth (it_z it) (st_active st') false = true).
+
+Check check_C16_sound :
+  forall freq K W data init os,
+    check_C16 freq K W data init os = true -> Holds_C16 freq K W data init os.
+
+Check sampler_no_underflow :
+  forall c st chs, WF c -> seed_ok c -> Inv c st -> allowed (run c st chs).
+
+(* the definitions the statements rest on, pinned against silent weakening *)
+Check (eq_refl : @allowed nat (Panic 12) = (5 <= 12 <= 9)%nat).
+Check (eq_refl : @allowed nat (Panic 7) = (5 <= 7 <= 9)%nat).
+Check (eq_refl : @allowed nat OutOfFuel = False).
+Check ((fun _ _ _ _ _ => eq_refl) : forall freq K W data r,
+  state_holds freq K W data r =
+  (length (r_active r) = length data /\
+   length (r_starts r) = length data /\
+   (forall i, (i < length data)%nat -> (nth i (r_starts r) O + W <= length (nth i data []))%nat) /\
+   r_cm r = recompute_motif K W data (r_active r) (r_starts r) /\
+   r_bg r = expected_bg_bits freq K W data (r_active r) (r_starts r) /\
+   r_n r = count_true (r_active r))).
+Check ((fun _ _ _ _ _ => eq_refl) : forall data act starts j k,
+  spec_motif_cell data act starts j k =
+  sumN (fun i => if nth i act false then win_cell (nth i data []) (nth i starts O) j k else 0%N) (length data)).
+Check ((fun _ _ _ _ _ => eq_refl) : forall W data act starts k,
+  spec_bg_cell W data act starts k =
+  sumN (fun i => if nth i act false
+                 then (count_sym (nth i data []) k - win_count W (nth i data []) (nth i starts O) k)%N
+                 else 0%N) (length data)).
+
+(* ------------------------------------------------------------------ non-vacuity *)
+
+Definition ex_data : list seqt := [[0;1;2;3];[1;1;2;0;4];[2;3;3]]%nat.
+
+Example ex_data_ok : data_ok 5 2 ex_data.
+Proof.
+  unfold data_ok, ex_data. repeat split.
+  - repeat constructor.
+  - repeat constructor.
+  - vm_compute. discriminate.
+  - vm_compute. discriminate.
+Qed.
+
+Example ex_seeds_ok : seeds_ok (length ex_data) 2 [0;2]%nat.
+Proof.
+  unfold seeds_ok. split; [|split; [repeat constructor|reflexivity]].
+  apply nodupb_spec. reflexivity.
+Qed.
+
+(* an Oops run: three calls, two of them move a start; the counts change accordingly *)
+Example ex_oops_run :
+  exists c st0 t,
+    new_ 5 2 ex_data [2;2;2]%nat Oops 0 0 0 [0;1;1]%nat [] = Ok (c, st0) /\
+    run c st0 [mkChoice 1 (UNew 3) true; mkChoice 0 UKeep true; mkChoice 2 (UNew 0) false] = Ok t /\
+    st_motif st0 = [[1;1;0;1;0];[0;1;1;1;0]]%N /\ st_bg st0 = [1;1;2;1;1]%N /\
+    map (fun x => st_starts (fst x)) t = [[0;3;1];[0;3;1];[0;3;0]]%nat /\
+    map (fun x => st_bg (fst x)) t = [[0;2;3;1;0];[0;2;3;1;0];[0;2;2;2;0]]%N.
+Proof.
+  eexists. eexists. eexists. split; [vm_compute; reflexivity|]. split; [vm_compute; reflexivity|].
+  vm_compute. repeat split; reflexivity.
+Qed.
+
+(* a Zoops run with seeds {0,2}, inertia 1, patience 5: the inactive sequence 1 is tried and
+   rejected (stays out), tried again and accepted (last_inclusion updated), then moved *)
+Example ex_zoops_run :
+  exists c st0 t,
+    new_ 5 2 ex_data [2;2;2]%nat Zoops 2 1 5 [0;1;1]%nat [0;2]%nat = Ok (c, st0) /\
+    run c st0 [mkChoice 0 UKeep true; mkChoice 1 (UNew 3) false; mkChoice 1 (UNew 2) true;
+               mkChoice 1 (UNew 0) true] = Ok t /\
+    st_active st0 = [true;false;true] /\
+    map (fun x => st_active (fst x)) t =
+      [[true;false;true];[true;false;true];[true;true;true];[true;true;true]] /\
+    map (fun x => st_starts (fst x)) t = [[0;1;1];[0;3;1];[0;2;1];[0;0;1]]%nat /\
+    map (fun x => st_last (fst x)) t = [0;0;2;2]%N /\
+    map (fun x => st_count (fst x)) t = [2;2;3;3]%N.
+Proof.
+  eexists. eexists. eexists. split; [vm_compute; reflexivity|]. split; [vm_compute; reflexivity|].
+  vm_compute. repeat split; reflexivity.
+Qed.
+
+(* patience: with patience 0 the rejected trial of step 1 converges the sampler, next() then
+   returns None *)
+Example ex_zoops_converges :
+  exists c st0 t,
+    new_ 5 2 ex_data [2;2;2]%nat Zoops 2 1 0 [0;1;1]%nat [0;2]%nat = Ok (c, st0) /\
+    run c st0 [mkChoice 0 UKeep true; mkChoice 1 (UNew 3) false; mkChoice 1 (UNew 2) true] = Ok t /\
+    map (fun x => st_conv (fst x)) t = [false;true;true] /\
+    map (fun x => match snd x with Some _ => true | None => false end) t = [true;true;false].
+Proof.
+  eexists. eexists. eexists. split; [vm_compute; reflexivity|]. split; [vm_compute; reflexivity|].
+  vm_compute. repeat split; reflexivity.
+Qed.
+
+(* the documented panics are reachable: a single sequence (empty active set after the
+   hold-out), inertia phase with a choice outside the seed list is an impossible choice *)
+Example ex_single_sequence_panics :
+  exists c st0,
+    new_ 5 2 [[0;1;2;3]]%nat [2]%nat Oops 0 0 0 [0]%nat [] = Ok (c, st0) /\
+    run c st0 [mkChoice 0 UKeep true] = Panic 7.
+Proof. eexists. eexists. split; [vm_compute; reflexivity|]. vm_compute. reflexivity. Qed.
+
+Example ex_impossible_choice :
+  exists c st0,
+    new_ 5 2 ex_data [2;2;2]%nat Zoops 2 1 5 [0;1;1]%nat [0;2]%nat = Ok (c, st0) /\
+    run c st0 [mkChoice 1 UKeep true] = Err 3.
+Proof. eexists. eexists. split; [vm_compute; reflexivity|]. vm_compute. reflexivity. Qed.
+
+(* the checker rejects a wrong report: one cell of the count matrix off by one, a stale
+   background, a start whose window leaves the sequence *)
+Definition ex_freq (c t : N) : Z := (Z.of_N c * 1000 + Z.of_N t)%Z.
+Definition ex_report (cm : matrix) (starts : list nat) : report :=
+  mkReport [true;true;true] starts 3 cm
+           (expected_bg_bits ex_freq 5 2 ex_data [true;true;true] [0;1;1]%nat).
+
+Example ex_checker_accepts_and_rejects :
+  check_state ex_freq 5 2 ex_data (ex_report [[1;1;0;1;0];[0;1;1;1;0]]%N [0;1;1]%nat) = true /\
+  check_state ex_freq 5 2 ex_data (ex_report [[1;1;0;1;0];[0;1;1;0;0]]%N [0;1;1]%nat) = false /\
+  check_state ex_freq 5 2 ex_data (ex_report [[1;1;0;1;0];[0;1;1;1;0]]%N [0;3;1]%nat) = false /\
+  check_range 2 ex_data (ex_report [[1;1;0;1;0];[0;1;1;1;0]]%N [0;1;2]%nat) = false.
+Proof. vm_compute. repeat split; reflexivity. Qed.
+
+(* choices_ok is satisfiable: the Oops run above meets the premise of sampler_no_panic *)
+Example ex_choices_ok :
+  forall c st0,
+    new_ 5 2 ex_data [2;2;2]%nat Oops 0 0 0 [0;1;1]%nat [] = Ok (c, st0) ->
+    choices_ok c st0 [mkChoice 1 (UNew 3) true; mkChoice 0 UKeep true].
+Proof.
+  intros c st0 H. vm_compute in H. inversion H; subst; clear H.
+  cbn [choices_ok]. split.
+  - right. cbn. repeat split; try lia; try discriminate.
+    exists 0%nat. repeat split; try lia.
+  - intros st' oit E. vm_compute in E. inversion E; subst; clear E. split; [|intros; exact I].
+    right. cbn. repeat split; try lia; try discriminate.
+    exists 1%nat. repeat split; try lia.
+Qed.
